@@ -53,7 +53,15 @@ class SimTransport(asyncio.Transport):
             self.lost = True
             self.sim.fired["write_fail"] += 1
             c["fault"] = (self.sim.ev("gw", "write_fail", (c["id"], i)), self.loop.vt, "write_fail")
-            self.loop.call_soon(self._lost, ConnectionResetError("sim: write failed"))
+            kind = w.get("fail_exc", "reset")
+            if kind == "etimedout":
+                import errno
+                exc = OSError(errno.ETIMEDOUT, "sim: connection timed out")         # what TCP keepalive reports
+            elif kind == "epipe":
+                exc = BrokenPipeError(32, "sim: broken pipe")
+            else:
+                exc = ConnectionResetError("sim: write failed")
+            self.loop.call_soon(self._lost, exc)
             return
         c["written"].append((self.loop.vt, self.loop.iters, data))
         self.sim.ev("gw", "rx", (c["id"], data.hex()))
